@@ -38,10 +38,10 @@ BOUNDS = {
     'quick': {'base_graphs': 'all connected graphs <= 4 nodes', 'edge_orders': '0..3 (all single; each edge in turn 2 / 0, first edge 3)',
               'designs': ['unique', 'homo', 'free'], 'fragments': ['all-atom', 'coarse'], 'legacy': [True, False],
               'descriptors': '$ > < with and without labels, orders 1-2, up to 4 per atom, leftovers',
-              'typed_in': 41, 'multiplied_units': '|2 |3', 'layered': 'graphs <= 4 nodes, 1..2 intermediate levels', 'random': '60 + 60', 'repeats_per_cell': 2},
+              'typed_in': 40, 'multiplied_units': '|2 |3', 'layered': 'graphs <= 4 nodes, 1..2 intermediate levels', 'random': '60 + 60', 'repeats_per_cell': 2},
     'thorough': {'base_graphs': 'all connected graphs <= 5 nodes', 'edge_orders': '0..3 + 2 seeded assignments per graph', 'repeats_per_cell': 3,
                  'designs': ['unique', 'homo', 'free'], 'fragments': ['all-atom', 'coarse'], 'legacy': [True, False],
-                 'descriptors': 'as quick', 'typed_in': 41, 'multiplied_units': '|2 |3 |5', 'layered': 'graphs <= 5 nodes, 1..3 levels',
+                 'descriptors': 'as quick', 'typed_in': 40, 'multiplied_units': '|2 |3 |5', 'layered': 'graphs <= 5 nodes, 1..3 levels',
                  'random': '4000 + 3000'},
 }
 EXHAUSTIVE = {'quick': False, 'thorough': False}
